@@ -7,7 +7,7 @@ TARGETS = ['clastic.middleware.stats.Reservoir.add', 'clastic.middleware.stats.R
            'clastic.middleware.stats.StatsMiddleware.request#HTTPExc']
 CANARIES = [
     {'name': 'reservoir-replaces-beyond-data', 'file': 'clastic/middleware/stats.py',
-     'old': "        if idx < len(self._data):", 'new': "        if idx < self._cap:"},
+     'old': "        if idx < len(self._data):", 'new': "        if idx <= len(self._data):"},
     {'name': 'reservoir-appends-by-total', 'file': 'clastic/middleware/stats.py',
      'old': "        if len(self._data) < self._cap:", 'new': "        if self._total_count <= self._cap + 1:"},
     {'name': 'resize-keeps-data', 'file': 'clastic/middleware/stats.py',
